@@ -159,6 +159,19 @@ def run_case(case, rec, mon=None):
                     U.read_signal(f, force_as="sph")
                 except Exception:
                     pass
+            if ftype == M.TYPE_AU2:
+                # the samples such a stream encodes are mu-law bytes: asked for with a one-byte dtype they come back as
+                # they are (0x7F and 0xFF both expand to 0, so the 16-bit comparison cannot tell them apart)
+                codes = np.array([[(v + 128) if v < 0 else (0xFF - v) for v in ch] for ch in chans], dtype=np.uint8).T
+                f2 = io.BytesIO(hdr + stream)
+                mon.register(f2, expected=np.ascontiguousarray(codes[:, 0] if codes.shape[1] == 1 else codes), info=dict(info, raw_codes=True))
+                rec.count("ulaw_streams_read_as_raw_codes")
+                with warnings.catch_warnings():
+                    warnings.simplefilter("ignore")
+                    try:
+                        U.read_signal(f2, dtype=np.uint8, force_as="sph")
+                    except Exception:
+                        pass
             for k, v in stats["cmds"].items():
                 rec.count("cmd_%s" % M_CMD.get(k, k), v)
             for b in stats["bitshifts"]:
